@@ -217,7 +217,9 @@ def run_q_learning(sc):
     st = {"q": _table(sc["seed"])}
     rec.watch_fn("q", lambda: _digest(st["q"]))
     _probe_exec(env, lambda: st["q"])
-    real_eg, real_greedy, real_upd = m.epsilon_greedy_policy, m.greedy_policy, m._update_policy
+    # the bootstrap helper is a module-level name of the unchanged code; a routine that bootstraps differently need not
+    # have it (then no bootstrap choice is observed and the update calls are judged on their arguments alone)
+    real_eg, real_greedy, real_upd = m.epsilon_greedy_policy, getattr(m, "greedy_policy", None), m._update_policy
 
     def epsilon_greedy_policy(q_table, observation, epsilon, key):
         a, branch = _observe_eg(real_eg, q_table, observation, epsilon, key)
@@ -237,7 +239,10 @@ def run_q_learning(sc):
         rec.emit("learn")
         return out
 
-    with interpose(m, epsilon_greedy_policy=epsilon_greedy_policy, greedy_policy=greedy_policy, _update_policy=_update_policy):
+    names = dict(epsilon_greedy_policy=epsilon_greedy_policy, _update_policy=_update_policy)
+    if real_greedy is not None:
+        names["greedy_policy"] = greedy_policy
+    with interpose(m, **names):
         res, err = guarded(lambda: m.train_q_learning(env, st["q"], learning_rate=LR, epsilon=eps, gamma=GAMMA, total_timesteps=sc["budget"],
                                                       seed=sc["seed"], logger=None, progress_bar=False))
     final = _finals(q=res if res is not None else st["q"])
